@@ -70,7 +70,7 @@ def gen(r):
     for g in range(nglyphs):
         shapes = []
         for s in range(r.randint(1, 3)):
-            kind = r.choice(["rect", "poly", "poly"])
+            kind = r.choice(["rect", "poly", "poly", "ellipse"])  # ellipse: cubic curves, converted to quadratics jointly for all masters
             fill = r.choice(["solid", "solid", "linear", "radial"])
             col = "#%06x" % r.randint(0, 0xFFFFFF)
             col2 = "#%06x" % r.randint(0, 0xFFFFFF)
@@ -103,6 +103,16 @@ def gen(r):
             else:
                 pm.append({"x": 0.25 + 0.02 * m, "y": 0.2, "w": 0.5, "h": 0.55, "pts": [], "g": [0.1, 0.1, 0.9, 0.9, 0.4]})
         glyphs[r.randrange(len(glyphs))].insert(0, {"kind": "rect", "fill": "solid", "col": "#%06x" % r.randint(0, 0xFFFFFF), "col2": "#000000", "op": 1.0, "params": pm})
+    if r.random() < 0.3:
+        # a shape that overhangs the right or the bottom edge of the viewBox in *every* master (by different amounts):
+        # with clip_to_viewbox each master is cut at the edge, and stays compatible
+        side = r.choice(["right", "bottom"])
+        pm = []
+        for m in range(nm):
+            a, b = 0.55 + 0.03 * m, 0.6 + 0.12 * m  # start inside, extent beyond the edge
+            c0, c1 = 0.2 + 0.02 * m, 0.3 + 0.03 * m
+            pm.append({"x": a, "y": c0, "w": b, "h": c1, "pts": [], "g": [0.1, 0.1, 0.9, 0.9, 0.4]} if side == "right" else {"x": c0, "y": a, "w": c1, "h": b, "pts": [], "g": [0.1, 0.1, 0.9, 0.9, 0.4]})
+        glyphs[r.randrange(len(glyphs))].append({"kind": "rect", "fill": "solid", "col": "#%06x" % r.randint(0, 0xFFFFFF), "col2": "#000000", "op": 1.0, "params": pm, "overhang": side})
     common_glyph = r.randrange(nglyphs) if (nglyphs >= 2 and r.random() < 0.3) else None
     if common_glyph is not None:
         names = ["bold", "thin", "regular", "wide"][:nm]  # directories sorting on either side of "common"
@@ -127,7 +137,9 @@ def svg_for(spec, g, m):
             defs += f'<radialGradient id="r{i}" gradientUnits="userSpaceOnUse" cx="{gx[0]*vb+0.2*vb:.3f}" cy="{gx[1]*vb+0.2*vb:.3f}" r="{gx[4]*vb:.3f}"><stop offset="0" stop-color="{sh["col"]}"/><stop offset="1" stop-color="{sh["col2"]}"/></radialGradient>'
             fill = f"url(#r{i})"
         op = f' opacity="{sh["op"]}"' if sh["op"] != 1.0 else ""
-        if sh["kind"] == "rect":
+        if sh["kind"] == "ellipse":
+            body += f'<ellipse cx="{(p["x"]+p["w"]/2)*vb:.3f}" cy="{(p["y"]+p["h"]/2)*vb:.3f}" rx="{p["w"]/2*vb:.3f}" ry="{p["h"]/2*vb:.3f}" fill="{fill}"{op}/>'
+        elif sh["kind"] == "rect":
             body += f'<rect x="{p["x"]*vb:.3f}" y="{p["y"]*vb:.3f}" width="{p["w"]*vb:.3f}" height="{p["h"]*vb:.3f}" fill="{fill}"{op}/>'
         else:
             d = "M" + " L".join(f"{x*vb:.3f},{y*vb:.3f}" for x, y in p["pts"]) + " Z"
